@@ -234,8 +234,8 @@ def pushes(rng, beh, n, path, upto=None):
         k = rng.choice([left, left, rng.randrange(1, left + 1), 1, 2, 31, 223, 254])
         k = min(k, left)
         beh.append({"a": "push", "arg": {"k": k}})
-        if path == "direct" and rng.random() < 0.4:
-            beh.append({"a": "grow", "arg": {"n": rng.choice([1, 2, 3, 64, 300])}})
+        if path == "direct" and rng.random() < 0.5:     # small steps: the next offer is accepted in part
+            beh.append({"a": "grow", "arg": {"n": rng.choice([1, 1, 2, 2, 3, 5, 64, 300])}})
         left -= k
         cnt += 1
 
